@@ -58,7 +58,7 @@ type modelProc struct {
 func startModel() (*modelProc, error) {
 	path := os.Getenv("VERIF_KDFDRIVER")
 	if path == "" {
-		path = "/verif/build/extract/kdfdriver"
+		path = buildPath("extract/kdfdriver")
 	}
 	cmd := exec.Command(path)
 	in, _ := cmd.StdinPipe()
@@ -146,7 +146,7 @@ type xcrypt struct {
 }
 
 func startXcrypt() *xcrypt {
-	cmd := exec.Command("python3", "-u", "/verif/bin/xcrypt.py")
+	cmd := exec.Command("python3", "-u", buildPath("../bin/xcrypt.py"))
 	in, _ := cmd.StdinPipe()
 	out, _ := cmd.StdoutPipe()
 	if cmd.Start() != nil {
